@@ -378,6 +378,18 @@ func (c *Ctx) scopeInline() {
 		})
 		c.check(just, "SCOPE/INLINE-WHEN", fmt.Sprintf("%s#found%d", name, nTrue), where, "inline iff code that starts before the comment ends on the comment's line",
 			"a comment is treated as trailing without a node/declaration ending on its line before it")
+		// a comment trailing the LAST declaration of the file lies after every declaration (the search index is
+		// len(Decls)); the "previous declaration ends on this line" case must not require idx < len(Decls)
+		viaPrev := hasLit(P.BlockGuards(b), func(l Lit) bool {
+			return l.Kind == "eq" && l.Pos && (isLineOfComment(l.X) || isLineOfComment(l.Y)) && strings.Contains(P.Desc(l.X)+P.Desc(l.Y), "go/ast.File.Decls")
+		})
+		if viaPrev {
+			restricts := hasLit(P.BlockGuards(b), func(l Lit) bool {
+				return l.Kind == "lt" && l.Pos && strings.HasPrefix(P.Desc(l.X), "call(sort.Search;") && strings.HasPrefix(P.Desc(l.Y), "call(builtin len; field(") && strings.Contains(P.Desc(l.Y), "go/ast.File.Decls)")
+			})
+			c.check(!restricts, "SCOPE/INLINE-LAST-DECL", fmt.Sprintf("%s#found%d", name, nTrue), where, "also for a comment after the last declaration of the file",
+				"a trailing @ignore on the last declaration of a file is not recognised as inline (the trailing-declaration case requires a following declaration)")
+		}
 	})
 	c.floor("inline-found returns", nTrue, 2)
 	// LINE-UNADJ for every LineStart in product code
